@@ -645,3 +645,47 @@ Proof.
   destruct k; simpl in Hk; [discriminate|]. destruct (fst (fst r)) as [|a' rp]; simpl in Hk; [discriminate|].
   inversion Hk; subst. eauto.
 Qed.
+
+(* ---- tabular resume ---------------------------------------------------------------------------- *)
+Lemma tab_results_spec all p :
+  tab_results true (Some p) all = filter (fun r => Z.ltb p (fst r)) all /\
+  (forall r, In r (tab_results true (Some p) all) -> (p < fst r)%Z) /\
+  tab_results false (Some p) all = all /\ (forall ck, tab_results ck None all = all).
+Proof.
+  repeat split; auto. simpl. intros r Hr. apply filter_In in Hr. destruct Hr as (_ & Hr).
+  apply Z.ltb_lt. exact Hr.
+Qed.
+
+(* ---- witness and example ------------------------------------------------------------------------- *)
+Definition late_evs : list ev :=
+  [ Start [(1, 0%Z); (2, 1%Z)]; W (Emit 0%nat 1%nat); Poll [0%nat] [(PAUSE, 1%nat)];
+    Resume 0%nat [(3, 100%Z)]; W (Emit 0%nat 1%nat); Poll [0%nat] [] ]%Q.
+
+Ltac ss := repeat (constructor; try (unfold rle, rts; simpl; discriminate)).
+
+Lemma late_report_witness :
+  exists evs st t,
+    Forall (fun e => tuner_ev e = true) evs /\
+    Forall (fun e => match e with Start reps | Resume _ reps => StronglySorted rle reps | _ => True end) evs /\
+    run Generic init evs = (st, None) /\ nth_error (trials st) 0%nat = Some t /\
+    runs_of t = [ ([(1, 0%Z); (2, 1%Z)], [(1, 0%Z)], Decided);
+                  ([(3, 100%Z)], [(2, 1%Z); (3, 100%Z)], Live) ]%Q.
+Proof.
+  exists late_evs. eexists. eexists. split; [repeat constructor|]. split; [unfold late_evs; ss|].
+  split; [vm_compute; reflexivity|]. split; vm_compute; reflexivity.
+Qed.
+
+Lemma example_run :
+  let evs := [ Start [(1, 0%Z); (2, 1%Z); (3, 2%Z)]; Start [(1, 10%Z); (4, 11%Z)];
+               W (Emit 0%nat 2%nat); W (Finish 1%nat);
+               Poll [0%nat; 1%nat] [(PAUSE, 0%nat); (CONT, 0%nat); (CONT, 0%nat)];
+               Resume 0%nat [(5, 3%Z); (6, 4%Z)]; W (Emit 0%nat 1%nat);
+               Poll [0%nat] [(STOP, 1%nat)] ]%Q in
+  Forall good_ev evs /\
+  exists st, run Generic init evs = (st, None) /\
+             out st = [(0%nat, 0%Z); (1%nat, 10%Z); (1%nat, 11%Z); (0%nat, 3%Z)].
+Proof.
+  intros evs. split.
+  - unfold evs, good_ev, quiet_decs. repeat (constructor; simpl; try (split; [reflexivity|])); ss; try discriminate; auto.
+  - eexists. split; vm_compute; reflexivity.
+Qed.
